@@ -346,7 +346,7 @@ CHECKS = {
              "lower-case/digit/-/. (unchanged by lower-casing and decoding, not forbidden); every CHAR_SIMPLE_PATHNAME byte is "
              "outside the path encode set and none of . % \\ ? # tab LF CR, hence the path encoder and tab/newline removal are "
              "the identity on simple path names; the port canonicaliser's lexicographic rule is numeric comparison. "
-             "The callbacks themselves (Model/PatternCanon.lean, 140 lines; Lemmas/PatternCanon.lean, 700 lines): "
+             "The callbacks themselves (Model/PatternCanon.lean, 220 lines; Lemmas/PatternCanon.lean, 1080 lines): "
              "canonicalize_username_is_standard, canonicalize_search_hash_is_standard (percent_encode_index + percent_encode from "
              "that index = the Standard's encoder over the userinfo / query / fragment set, after tab/newline removal), "
              "canonicalize_ipv6_opaque_is_standard (the opaque path state run by hand), canonicalize_port_is_standard (digit prefix, "
